@@ -333,6 +333,47 @@ func c19Check(c *config, m *ir.Module, ks []int, sample bool) {
 			o.Pass("failing_writer")
 		}
 	}
+	// a destination that is a real file: one that takes everything, one that is closed, one opened read-only, and
+	// the device that is always full -- the count is what the file accepted, an error is reported, not swallowed
+	if L > 0 {
+		tmp := filepath.Join(os.TempDir(), fmt.Sprintf("verif-c19-%d.ll", os.Getpid()))
+		if fh, e := os.Create(tmp); e == nil {
+			n, err := m.WriteTo(fh)
+			fh.Close()
+			got, _ := os.ReadFile(tmp)
+			o.Stat("writers.os_file")
+			if err != nil || n != int64(L) || string(got) != text {
+				o.Fail("failing_writer", "", "a file destination does not receive the text of String()", map[string]interface{}{"module": text, "n": n, "err": fmt.Sprint(err)})
+			} else {
+				o.Pass("file_writer")
+			}
+			n, err = m.WriteTo(fh) // closed
+			if err == nil || n != 0 {
+				o.Fail("failing_writer", "", "a closed file as destination: no error or a count above zero", map[string]interface{}{"module": text, "n": n, "err": fmt.Sprint(err)})
+			} else {
+				o.Pass("file_writer")
+			}
+			if ro, e := os.Open(tmp); e == nil {
+				n, err = m.WriteTo(ro)
+				ro.Close()
+				if err == nil || n != 0 {
+					o.Fail("failing_writer", "", "a read-only file as destination: no error or a count above zero", map[string]interface{}{"module": text, "n": n, "err": fmt.Sprint(err)})
+				} else {
+					o.Pass("file_writer")
+				}
+			}
+			os.Remove(tmp)
+		}
+		if full, e := os.OpenFile("/dev/full", os.O_WRONLY, 0); e == nil {
+			n, err := m.WriteTo(full)
+			full.Close()
+			if err == nil || n != 0 {
+				o.Fail("failing_writer", "", "/dev/full as destination: no error or a count above zero", map[string]interface{}{"module": text, "n": n, "err": fmt.Sprint(err)})
+			} else {
+				o.Pass("file_writer")
+			}
+		}
+	}
 	o.Case("writeto", []string{hxs(rec.chunks), strings.Join(kstr, ",")}, []string{strings.Join(outs, ",")})
 	o.StatN("writers.fail_after_k", len(ks))
 	o.Stat("modules")
